@@ -9,6 +9,7 @@ import (
 	"os"
 	"runtime"
 	"sort"
+	"strconv"
 	"strings"
 	"sync"
 	"time"
@@ -101,18 +102,20 @@ type violation struct {
 }
 
 type world struct {
-	mutatePct int  // percentage of service messages replaced by a structural mutation (profile mutate)
-	mrng      *rng // PRNG of the mutations
-	mutated   bool // a mutated message was delivered: only crash/stall/bad-frame checks apply
-	cfg       worldCfg
-	serv      *server.Service
-	mq        *mockMQ
-	lg        *memLogger
-	clients   []*wsClient
-	truth     *truth
-	steps     []stepRec
-	viols     []violation
-	cidName   map[string]string
+	noSettle   bool // a burst of stimuli is being issued without settling in between
+	concurrent bool // the history contained a burst: the gateway's own scheduler decided interleavings
+	mutatePct  int  // percentage of service messages replaced by a structural mutation (profile mutate)
+	mrng       *rng // PRNG of the mutations
+	mutated    bool // a mutated message was delivered: only crash/stall/bad-frame checks apply
+	cfg        worldCfg
+	serv       *server.Service
+	mq         *mockMQ
+	lg         *memLogger
+	clients    []*wsClient
+	truth      *truth
+	steps      []stepRec
+	viols      []violation
+	cidName    map[string]string
 
 	framesInBase  int64
 	framesOutBase int64
@@ -269,6 +272,14 @@ func (w *world) apply(stim string, f func()) {
 	if crashLog != nil {
 		// the gateway runs without recover: a panic kills this process, the log is the replay
 		crashLog.WriteString(stim + "\n")
+	}
+	if w.noSettle {
+		// inside a burst: the stimulus is handed to the gateway without waiting for the
+		// previous one to be absorbed; everything is collected when the burst ends
+		w.concurrent = true
+		f()
+		w.steps = append(w.steps, stepRec{Stim: stim + "   # in burst"})
+		return
 	}
 	f()
 	for i := 0; i < 50; i++ {
@@ -781,6 +792,40 @@ func canonObs(obs []string) []string {
 		}
 		seg := frames[i:j]
 		sort.SliceStable(seg, func(a, b int) bool { return key(seg[a]) < key(seg[b]) })
+		i = j
+	}
+	// responses to different requests of one client that follow one another directly: their
+	// relative order is the order in which cache workers of different resources reached the
+	// connection's queue (a real race, and no property orders them) - compared by request id
+	resID := func(f string) (string, int, bool) {
+		p := strings.SplitN(f, " ", 5)
+		if len(p) < 4 || p[2] != "res" {
+			return "", 0, false
+		}
+		n, err := strconv.Atoi(p[3])
+		return p[1], n, err == nil
+	}
+	i = 0
+	for i < len(frames) {
+		c, _, ok := resID(frames[i])
+		if !ok {
+			i++
+			continue
+		}
+		j := i
+		for j < len(frames) {
+			c2, _, ok2 := resID(frames[j])
+			if !ok2 || c2 != c {
+				break
+			}
+			j++
+		}
+		seg := frames[i:j]
+		sort.SliceStable(seg, func(a, b int) bool {
+			_, x, _ := resID(seg[a])
+			_, y, _ := resID(seg[b])
+			return x < y
+		})
 		i = j
 	}
 	sort.Strings(rest)
